@@ -81,6 +81,7 @@ def strategy(ctx):
         gen_ir.interface("signature", suffix=True),
         gen_ir.interface("signature", suffix=True, min_params=2, max_params=5),
         gen_ir.interface("signature", suffix=True, doc=gen_ir.mixed_descr, name_strategy=gen_ir.rich_names),
+        gen_ir.interface("signature", suffix=True, max_params=3, doc=st.one_of(gen_ir.descr, gen_ir.long_token_descr())),
     ).map(_no_code_defaults).filter(
         lambda c: not any(k == "dotted" and "default" in p for (_n, p), k in zip(c["params"], c["kinds"]))
     )
